@@ -5,7 +5,8 @@ import ast
 from ..absint import FALSE, NONE, NOTNONE, TOP, TRUE, DefaultDomain, Interp, Result, State, exc, val
 from ..astutil import FUNC_TYPES, attr_chain, dotted, norm, walk_shallow
 from ..cfg import live_nodes, node_calls
-from ..loader import AnalysisError
+from ..loader import AnalysisError, Undecided
+from ..objects import ObjectDomain
 from .common import TESTCASE, cfg_of, has_kw, kw_value, module_function, nodes_calling, own_method, str_const
 
 EXPLANATION = (
@@ -29,75 +30,6 @@ CONTENT = "testtools.content"
 CTYPE = "testtools.content_type"
 
 
-class ReadDomain(DefaultDomain):
-    """Values returned by stream.read() must be yielded once, in order, unless falsy."""
-
-    def truth(self, v):
-        if isinstance(v, tuple) and v and v[0] == "chunk":
-            return {"nonempty": "T", "empty": "F"}.get(v[3], "TF")
-        return super().truth(v)
-
-    def is_none(self, v):
-        if isinstance(v, tuple) and v and v[0] == "chunk":
-            return "F"
-        return super().is_none(v)
-
-    def refine_truth(self, v, truth):
-        if isinstance(v, tuple) and v and v[0] == "chunk":
-            return (v[0], v[1], v[2], "nonempty" if truth else "empty")
-        return v
-
-    @staticmethod
-    def _problem(st, msg):
-        return st if st.has("ev.problem") else st.set("ev.problem", msg)
-
-    def rebound(self, old, st, fr):
-        if isinstance(old, tuple) and old and old[0] == "chunk" and old[2] == "unsent" and old[3] != "empty":
-            if not any(isinstance(v, tuple) and v[:2] == old[:2] for _, v in st.items):
-                return self._problem(st, "a chunk returned by stream.read() is overwritten before it was yielded (lost data)")
-        return st
-
-    def call(self, interp, call, st, fr):
-        d = dotted(call.func)
-        out = []
-        for r in interp.eval_list([a.value if isinstance(a, ast.Starred) else a for a in call.args] + [k.value for k in call.keywords], st, fr):
-            if r.kind == "exc":
-                out.append(r)
-                continue
-            s = r.state
-            if d and d.endswith(".read"):
-                n = s.get("ev.n", 0)
-                s = s.set("ev.n", (n + 1) % 3).set("ev.reads", min(s.get("ev.reads", 0) + 1, 2))
-                out.append(val(("chunk", n, "unsent", "?"), s))
-                out.append(exc(("read raised",), r.state))
-            elif d and d.endswith(".seek"):
-                if s.get("ev.reads", 0) > 0:
-                    s = self._problem(s, "seek() happens after data has already been read")
-                out.append(val(TOP, s.set("ev.seeks", min(s.get("ev.seeks", 0) + 1, 2))))
-            else:
-                out.append(val(TOP, s))
-        return out
-
-    def load_attr(self, chain, st, fr):
-        if chain[0] == "<yield>":
-            v = chain[2]
-            s = st
-            if isinstance(v, tuple) and v and v[0] == "chunk":
-                if v[3] == "empty":
-                    s = self._problem(s, "an empty chunk is yielded")
-                elif v[3] == "?":
-                    s = self._problem(s, "a chunk is yielded without having been tested for emptiness")
-                if v[2] == "sent":
-                    s = self._problem(s, "a chunk is yielded twice")
-                sent = (v[0], v[1], "sent", v[3])
-                s = State(frozenset((k, (sent if (isinstance(x, tuple) and x[:2] == v[:2]) else x)) for k, x in s.items), s.log)
-                s = s.set("ev.yields", min(s.get("ev.yields", 0) + 1, 2))
-            else:
-                s = self._problem(s, f"something other than a chunk read from the stream is yielded ({v})")
-            return [val(NONE, s)]
-        return None
-
-
 def run(ctx):
     ctx.rule("R-CHUNK-OBLIGATIONS", "_iter_chunks yields every truthy chunk it read exactly once, in order; seek first, iff requested")
     ctx.rule("R-INCREMENTAL-DECODE", "text is decoded incrementally with one decoder and a final flush")
@@ -109,26 +41,6 @@ def run(ctx):
     classes = ctx.classes
     mod = ctx.repo.module(CONTENT)
 
-    # ------------------------------------------------------------------ _iter_chunks
-    ic = module_function(ctx, CONTENT, "_iter_chunks")
-    dom = ReadDomain()
-    it = Interp(dom, max_depth=2)
-    res = it.analyze(ic, {"seek_offset": TOP}, State([("ev.n", 0), ("ev.reads", 0), ("ev.seeks", 0), ("ev.yields", 0)]), receiver=None, name="_iter_chunks")
-    ctx.stats["states"] += it.steps
-    ctx.analysed(ic)
-    normal = [r for r in res if r.kind == "val"]
-    problems = {}
-    for r in normal:
-        p = r.state.get("ev.problem", None)
-        if p:
-            problems.setdefault(p, r)
-        for k, v in r.state.items:
-            pass
-    ctx.check("R-CHUNK-OBLIGATIONS", f"_iter_chunks: {len(normal)} abstract exit states, every read chunk yielded once or falsy", ic, bool(normal) and not problems,
-              "; ".join(problems) if problems else "the generator never terminates in the abstract run (loop condition cannot become false)",
-              examined=len(res), construct=f"{CONTENT}:_iter_chunks::obligations")
-    seeks = {r.state.get("ev.seeks", 0) for r in normal}
-    ctx.check("R-CHUNK-OBLIGATIONS", "at most one seek per iteration of the source", ic, seeks <= {0, 1}, f"seek counts {sorted(seeks)}", construct=f"{CONTENT}:_iter_chunks::seek-once")
     check_iter_chunks_scenarios(ctx)
     check_text_decoding(ctx)
     check_sources(ctx)
@@ -168,18 +80,30 @@ def check_iter_chunks_scenarios(ctx):
     STREAM = ("wobj", "stream")
     n = 0
     problems = set()
-    for chunks in ((), (B1, B2)):
+    B3 = ("const", b"third")
+    for chunks in ((), (B1,), (B1, B2), (B1, B2, B3), (B2, B2, B1, B2)):
         for offset, label in ((NONE, "no offset"), (("const", 0), "offset 0"), (OFFSET, "an offset")):
-            dom = effects.EffectDomain(ctx.classes, oracle=_stream_oracle(chunks), log_cap=12)
+            dom = ObjectDomain(ctx.classes, oracle=_stream_oracle(chunks), log_cap=16)
             dom.oracle_state = True
-            res = effects.run(ctx, dom, ic, None, {params[0]: STREAM, params[1]: SIZE, params[2]: offset, params[3]: WHENCE}, state=State(), depth=2)
+            try:
+                res = effects.run(ctx, dom, ic, None, {params[0]: STREAM, params[1]: SIZE, params[2]: offset, params[3]: WHENCE}, state=State(), depth=3)
+            except Undecided as e:
+                if "loop state" not in str(e):
+                    raise
+                # the modelled stream is deterministic: a loop that outgrows the budget keeps reading after read() returned b''
+                problems.add(f"[{len(chunks)} chunks, {label}] reading does not stop at the end of the stream (read() returning b'' for ever does not end the loop)")
+                continue
             n += len(res)
+            if not res:
+                problems.add(f"[{len(chunks)} chunks, {label}] the generator never finishes")
             for r in res:
                 log = r.state.get("ev.calls", ())
                 if r.kind != "val":
                     problems.add(f"[{len(chunks)} chunks, {label}] the generator raises {r.value!r}")
                     continue
                 got = _gen_values(r)
+                if not got and isinstance(r.value, tuple) and r.value[:1] in (("tuple",), ("lazyseq",), ("iter",)):
+                    got = list(r.value[1:]) if r.value[0] != "iter" else list(r.value[1][1:])   # not a generator function any more: what iterating its result gives
                 if got != list(chunks):
                     problems.add(f"[{len(chunks)} chunks, {label}] the chunks yielded are {got}; the stream hands out {list(chunks)} and then b''")
                 reads = [e for e in log if e[0] == "stream.read"]
@@ -200,7 +124,7 @@ def check_iter_chunks_scenarios(ctx):
     problems = set()
     n = 0
     for whence in (0, 1, 2):
-        dom = effects.EffectDomain(ctx.classes, oracle=_stream_oracle((B1,), position=("const", 3)), log_cap=12)
+        dom = ObjectDomain(ctx.classes, oracle=_stream_oracle((B1,), position=("const", 3)), log_cap=12)
         dom.oracle_state = True
         res = effects.run(ctx, dom, ic, None, {params[0]: STREAM, params[1]: SIZE, params[2]: ("const", 3), params[3]: ("const", whence)}, state=State(), depth=2)
         n += len(res)
@@ -218,7 +142,7 @@ CHUNKS = (B1, ("const", b"x"), EMPTY_B, B2)
 def check_text_decoding(ctx):
     from .. import effects
     cls = ctx.classes.get(CONTENT, "Content")
-    it_f = own_method(ctx, CONTENT, "Content", "_iter_text")
+    it_f = own_method(ctx, CONTENT, "Content", "iter_text")
     n = 0
     problems = set()
     for charset in (("const", "utf-8"), None):
@@ -232,15 +156,16 @@ def check_text_decoding(ctx):
                     return [("val", tail if final else ("const", piece))]
                 return None
             params = ("kwdict", (("charset", charset),) if charset else ())
-            dom = effects.EffectDomain(ctx.classes, attrs={"self": ("self",)}, oracle=oracle, track=lambda d: d == "codecs.getincrementaldecoder",
-                                       results={"codecs.getincrementaldecoder": [("bound", "codecs", "make_decoder")], "self._get_bytes": [("tuple",) + CHUNKS]}, log_cap=20)
-            res = effects.run(ctx, dom, it_f, cls, {}, state=State([("self.content_type.parameters", params)]), depth=4)
+            dom = ObjectDomain(ctx.classes, attrs={"self": ("self",), "self.content_type": ("wobj", "ctype"), "ctype.type": ("const", "text")}, oracle=oracle,
+                               track=lambda d: d == "codecs.getincrementaldecoder",
+                               results={"codecs.getincrementaldecoder": [("bound", "codecs", "make_decoder")], "self._get_bytes": [("tuple",) + CHUNKS]}, log_cap=20)
+            res = effects.run(ctx, dom, it_f, cls, {}, state=State([("self.content_type.parameters", params)]), depth=5)
             n += len(res)
             for r in res:
                 log = r.state.get("ev.calls", ())
                 label = f"[charset {'declared' if charset else 'not declared'}, flush gives {tail[1]!r}]"
                 if r.kind != "val":
-                    problems.add(f"{label} _iter_text raises {r.value!r}")
+                    problems.add(f"{label} iter_text raises {r.value!r}")
                     continue
                 made = [e for e in log if e[0] == "codecs.getincrementaldecoder"]
                 if len(made) != 1 or made[0][1] != (charset if charset else ("const", "ISO-8859-1"),):
@@ -254,38 +179,39 @@ def check_text_decoding(ctx):
                     problems.add(f"{label} the chunks decoded are {[e[1] for e in data]}; expected every chunk of iter_bytes() once, in order")
                 if len(flush) != 1 or dec.index(flush[0]) != len(dec) - 1 or flush[0][1][:1] != (EMPTY_B,):
                     problems.add(f"{label} the decoder is not flushed exactly once, after the last chunk, with decode(b'', final=True): a truncated trailing sequence would be dropped silently")
-                pieces = _gen_values(r)
+                pieces = list(r.value[1:]) if isinstance(r.value, tuple) and r.value[:1] in (("tuple",), ("lazyseq",)) else [r.value]   # what iterating the returned object gives
                 want = "".join(c_[1].decode("latin-1") for c_ in CHUNKS) + tail[1]
                 if not all(isinstance(x, tuple) and x[:1] == ("const",) and isinstance(x[1], str) for x in pieces) or "".join(x[1] for x in pieces) != want:
                     problems.add(f"{label} the text yielded is {pieces}: its concatenation is not the decoded chunks in order" + (" followed by the flushed tail" if tail[1] else ""))
-    ctx.check("R-INCREMENTAL-DECODE", "_iter_text: one incremental decoder for the declared charset, every chunk decoded in order, one final flush whose non-empty result is yielded", it_f,
-              not problems, "; ".join(sorted(problems)[:4]), examined=n, construct=f"{CONTENT}:Content._iter_text::scenarios")
+    ctx.check("R-INCREMENTAL-DECODE", "iter_text of a text type: one incremental decoder for the declared charset, every chunk decoded in order, one final flush whose non-empty result is yielded", it_f,
+              n > 0 and not problems, "; ".join(sorted(problems)[:4]) or "no path", examined=n, construct=f"{CONTENT}:Content._iter_text::scenarios")
     # as_text / iter_text / iter_bytes
     at = own_method(ctx, CONTENT, "Content", "as_text")
-    dom = effects.EffectDomain(ctx.classes, attrs={"self": ("self",)}, results={"self.iter_text": [("tuple", ("const", "ab"), ("const", ""), ("const", "c"))]})
+    dom = ObjectDomain(ctx.classes, attrs={"self": ("self",)}, results={"self.iter_text": [("tuple", ("const", "ab"), ("const", ""), ("const", "c"))]})
     res = effects.run(ctx, dom, at, cls, {}, state=State(), depth=2)
     ok = bool(res) and all(r.kind == "val" and r.value == ("const", "abc") for r in res)
     ctx.check("R-INCREMENTAL-DECODE", "as_text is the concatenation of iter_text()", at, ok, f"as_text of the pieces 'ab', '', 'c' gives {[r.value for r in res]!r}", examined=len(res), construct=f"{CONTENT}:Content.as_text::join")
     itx = own_method(ctx, CONTENT, "Content", "iter_text")
     problems = set()
     n = 0
-    for typ, want in ((("const", "text"), "decodes"), (("const", "application"), "refuses")):
-        dom = effects.EffectDomain(ctx.classes, attrs={"self": ("self",), "self.content_type": ("wobj", "ctype"), "ctype.type": typ}, results={"self._iter_text": [("sym", "the-text-generator")]})
-        res = effects.run(ctx, dom, itx, cls, {}, state=State(), depth=2)
+    for typ in (("const", "application"), ("const", "image")):
+        dom = ObjectDomain(ctx.classes, attrs={"self": ("self",), "self.content_type": ("wobj", "ctype"), "ctype.type": typ}, results={"self._get_bytes": [("tuple",) + CHUNKS]},
+                           track=lambda d: d == "codecs.getincrementaldecoder")
+        res = effects.run(ctx, dom, itx, cls, {}, state=State([("self.content_type.parameters", ("kwdict", ()))]), depth=5)
         n += len(res)
         for r in res:
-            if want == "decodes" and (r.kind, r.value) != ("val", ("sym", "the-text-generator")):
-                problems.add(f"for a text type iter_text gives {r.kind} {r.value!r} instead of the decoding generator")
-            if want == "refuses" and not (r.kind == "exc" and r.value == ("exc", "ValueError")):
+            if not (r.kind == "exc" and r.value == ("exc", "ValueError")):
                 problems.add(f"for a non-text type iter_text gives {r.kind} {r.value!r} instead of raising ValueError")
-    ctx.check("R-INCREMENTAL-DECODE", "iter_text refuses non-text types and otherwise returns the decoding generator", itx, not problems, "; ".join(sorted(problems)), examined=n, construct=f"{CONTENT}:Content.iter_text::guard")
+            if any(e[0] == "codecs.getincrementaldecoder" for e in r.state.get("ev.calls", ())):
+                problems.add("for a non-text type a decoder is made before the type is refused")
+    ctx.check("R-INCREMENTAL-DECODE", "iter_text refuses non-text types", itx, n > 0 and not problems, "; ".join(sorted(problems)) or "no path", examined=n, construct=f"{CONTENT}:Content.iter_text::guard")
     ib = own_method(ctx, CONTENT, "Content", "iter_bytes")
-    dom = effects.EffectDomain(ctx.classes, attrs={"self": ("self",)}, results={"self._get_bytes": [("sym", "what-the-source-yields")]})
+    dom = ObjectDomain(ctx.classes, attrs={"self": ("self",)}, results={"self._get_bytes": [("sym", "what-the-source-yields")]})
     res = effects.run(ctx, dom, ib, cls, {}, state=State(), depth=2)
     ok = bool(res) and all(r.kind == "val" and r.value == ("sym", "what-the-source-yields") for r in res)
     ctx.check("R-INCREMENTAL-DECODE", "iter_bytes hands out exactly what the source yields", ib, ok, f"iter_bytes gives {[r.value for r in res]!r} instead of self._get_bytes()", examined=len(res), construct=f"{CONTENT}:Content.iter_bytes::source")
     ci = own_method(ctx, CONTENT, "Content", "__init__")
-    dom = effects.EffectDomain(ctx.classes, attrs={"self": ("self",)})
+    dom = ObjectDomain(ctx.classes, attrs={"self": ("self",)})
     res = effects.run(ctx, dom, ci, cls, {ci.args.args[1].arg: ("sym", "ctype"), ci.args.args[2].arg: ("sym", "source")}, state=State(), depth=2)
     ok = bool(res) and all(r.kind == "val" and r.state.get("self.content_type") == ("sym", "ctype") and r.state.get("self._get_bytes") == ("sym", "source") for r in res)
     ctx.check("R-EQ-READS-BOTH", "Content keeps the type and the byte source it was given", ci, ok, "Content.__init__ does not store the content type and the byte source", examined=len(res), construct=f"{CONTENT}:Content.__init__::fields")
@@ -402,8 +328,10 @@ def check_sources(ctx):
                         if len(opens) != 1 or opens[0][1][:1] != (src_obj,) or ("const", "rb") not in list(opens[0][1][1:]) + [v for _, v in opens[0][2]]:
                             problems.add(f"the file is opened as open{[e[1] for e in opens]!r}; expected once, open(path, 'rb')")
                         names = [e[0] for e in full]
-                        if names.count("file.__enter__") != names.count("file.__exit__") or "file.__exit__" not in names:
-                            problems.add("the file is not closed after reading (not opened under `with`)")
+                        closes = [i for i, n_ in enumerate(names) if n_ in ("file.__exit__", "file.close")]
+                        last_use = max([i for i, n_ in enumerate(names) if n_ in ("file.read", "file.seek")], default=-1)
+                        if not closes or closes[-1] < last_use:
+                            problems.add("the file is not closed after reading (neither left through `with` nor close()d)")
         ctx.check("R-EAGER-LAZY", f"{name}: source untouched until the content is read unless buffer_now; chunking and seek arguments passed through", f, not problems,
                   "; ".join(sorted(problems)[:4]), examined=n, construct=f"{CONTENT}:{name}::scenarios")
     # text_content / json_content round trips: the bytes are the argument encoded in the declared charset
@@ -473,7 +401,7 @@ def check_equality(ctx):
             if name == "other.iter_bytes":
                 return [("val", ("tuple",) + tuple(b_other))]
             return None
-        dom = effects.EffectDomain(ctx.classes, attrs={"self": ("self",), "self.content_type": t_self, "other.content_type": t_other, "_join_b": ("bound", "joiner", "join")},
+        dom = ObjectDomain(ctx.classes, attrs={"self": ("self",), "self.content_type": t_self, "other.content_type": t_other, "_join_b": ("bound", "joiner", "join")},
                                    results={"self._get_bytes": [("tuple",) + tuple(b_self)]}, oracle=oracle)
         res = effects.run(ctx, dom, eq, cls, {other: ("wobj", "other")}, state=State(), depth=3)
         n += len(res)
@@ -484,18 +412,48 @@ def check_equality(ctx):
               construct=f"{CONTENT}:Content.__eq__::both")
     ct = ctx.classes.get(CTYPE, "ContentType")
     ceq = ct.own_method("__eq__")
-    init = ct.own_method("__init__")
-    fields = sorted(a for a in __import__("ttsa.symbols", fromlist=["x"]).instance_attrs_assigned(init))
-    ok = fields == ["parameters", "subtype", "type"] and "self.__dict__ == %s.__dict__" % ceq.args.args[1].arg in norm(ceq)
-    if not ok:
-        cmp_fields = {n_.attr for n_ in ast.walk(ceq) if isinstance(n_, ast.Attribute) and dotted(n_.value) == "self"}
-        ok = {"type", "subtype", "parameters"} <= cmp_fields
-    ctx.check("R-EQ-READS-BOTH", "ContentType.__eq__ compares type, subtype and parameters", ceq, ok, "ContentType equality ignores a field", construct=f"{CTYPE}:ContentType.__eq__::fields")
+    # ContentType equality, on two objects made by the constructor: equal iff type, subtype and parameters all agree
+    from ..absint import Frame
+    dom = ObjectDomain(ctx.classes)
+    dom.root_class = None
+    it = Interp(dom, max_depth=6)
+    it.round_cache = {}
+    holder = ast.parse("def _comparing_content_types():\n    pass").body[0]
+    holder._module, holder._parent, holder._class = ct.node._module, ct.node._module.tree, None
+    fr = Frame(holder, 0, None, name="<comparing>", is_method=False)
+    P1, P2 = ("kwdict", (("charset", ("const", "utf8")),)), ("kwdict", (("charset", ("const", "latin-1")),))
+    base = (("const", "text"), ("const", "plain"), P1)
+    cases = [("all fields agree", base, TRUE), ("the type differs", (("const", "application"),) + base[1:], FALSE), ("the subtype differs", (base[0], ("const", "html"), base[2]), FALSE),
+             ("a parameter differs", base[:2] + (P2,), FALSE), ("one has no parameters", base[:2] + (("kwdict", ()),), FALSE)]
+    problems = set()
+    n = 0
+    for label, fields, want in cases:
+        for left in dom.instantiate(it, ct, list(base), [], State(), fr):
+            if left.kind != "val":
+                problems.add(f"ContentType{base!r} cannot be constructed ({left.value!r})")
+                continue
+            for right in dom.instantiate(it, ct, list(fields), [], left.state, fr):
+                if right.kind != "val":
+                    problems.add(f"ContentType{fields!r} cannot be constructed ({right.value!r})")
+                    continue
+                for r in dom.call_method(it, left.value, "__eq__", [right.value], [], right.state, fr) or []:
+                    n += 1
+                    if r.kind != "val" or r.value != want:
+                        problems.add(f"[{label}] == gives {r.kind} {r.value!r}; expected {'True' if want == TRUE else 'False'}")
+        if not n:
+            problems.add("ContentType.__eq__ could not be followed")
+    for left in dom.instantiate(it, ct, list(base), [], State(), fr):
+        for r in (dom.call_method(it, left.value, "__eq__", [("const", 42)], [], left.state, fr) or []) if left.kind == "val" else []:
+            n += 1
+            if r.kind != "val" or r.value not in (FALSE, ("const", NotImplemented), ("sym", "NotImplemented")):
+                problems.add(f"compared with something that is not a ContentType == gives {r.kind} {r.value!r}")
+    ctx.stats["states"] += it.steps
+    ctx.check("R-EQ-READS-BOTH", "ContentType.__eq__ compares type, subtype and parameters", ceq, n > 0 and not problems, "; ".join(sorted(problems)) or "no path", examined=n, construct=f"{CTYPE}:ContentType.__eq__::fields")
     rp = ct.own_method("__repr__")
     problems = set()
     n = 0
     for params, want in ((("kwdict", (("charset", ("const", "utf8")), ("b", ("const", "2")))), 'text/plain; b="2"; charset="utf8"'), (("kwdict", ()), "text/plain")):
-        dom = effects.EffectDomain(ctx.classes, attrs={"self": ("self",), "self.type": ("const", "text"), "self.subtype": ("const", "plain")})
+        dom = ObjectDomain(ctx.classes, attrs={"self": ("self",), "self.type": ("const", "text"), "self.subtype": ("const", "plain")})
         res = effects.run(ctx, dom, rp, ct, {}, state=State([("self.parameters", params)]), depth=2)
         n += len(res)
         got = sorted({repr(r.value) for r in res})
